@@ -132,7 +132,18 @@ fn check_one<CS: BbsCiphersuite>(rep: &Report, ck: &str, c: &Case) -> CheckResul
         if k % 3 == 1 {
             rep.class(&format!("update-right-after-a-refused-call:{}", crate::history::refused_call::<CS>((pos * 31 + k) as u64)));
         }
-        let upd = match sig.update_signature(sk, &old, &newv, pos, l) {
+        // when one value is a prefix of the other, the two arguments are two views of ONE buffer (same start address,
+        // different lengths), as a caller that keeps a record and passes slices of it would hand them over
+        let (old_arg, new_arg): (&[u8], &[u8]) = if newv.len() > old.len() && newv.starts_with(&old) {
+            rep.class("old-and-new-value-are-views-of-one-buffer");
+            (&newv[..old.len()], &newv[..])
+        } else if newv.len() < old.len() && old.starts_with(&newv) {
+            rep.class("old-and-new-value-are-views-of-one-buffer");
+            (&old[..], &old[..newv.len()])
+        } else {
+            (&old[..], &newv[..])
+        };
+        let upd = match sig.update_signature(sk, old_arg, new_arg, pos, l) {
             Ok(s) => s,
             Err(er) => return rep.fail(ck, "update-failed", format!("update at position {}: {:?}", pos, er), cj(Some(k))),
         };
@@ -254,7 +265,7 @@ pub fn run(ctx: &Ctx, rep: &Report) -> Meta {
     Meta {
         rule: "model-based histories: suite, key, header, L = 1..6 (quick) / 1..12 (thorough) plus sweeps over L in {24, 33, 64}, initial vector, then up to 12 / 32 generated (position, value) updates, optionally preceded by a sweep over every position; \
                model = current vector and A_k = B_ref(vector_k)/(sk + e) from the reference; after every step: update Ok, verify Ok, signature octets = model, Err for the last 8 earlier different vectors; \
-               every third update right after a call the library refuses (history::refused_call); probes at every step: positions {L, L+1, 2^32, usize::MAX-1, usize::MAX, and pos + k*2^b for b in 8, 16, 32, 48, 63 (aliases of the step's position under a narrowing cast)} must return Err (no panic), a wrong old value must not yield a signature valid for the intended vector; \
+               every third update right after a call the library refuses (history::refused_call); a new value that extends or truncates the old one is passed as a second view of the same buffer; probes at every step: positions {L, L+1, 2^32, usize::MAX-1, usize::MAX, and pos + k*2^b for b in 8, 16, 32, 48, 63 (aliases of the step's position under a narrowing cast)} must return Err (no panic), a wrong old value must not yield a signature valid for the intended vector; \
                sweeps over every L in 7..=72 / 7..=200 with updates at the first, second, middle and last position, vectors of 255 / 256 / 257 / 300 messages updated at positions 0, 253..256 and last, fixed histories under contention, half of the cases after a warm-up history; non-trivial = history with >= 2 updates of which >= 1 at a position > 0; evaluations = oracle applications"
             .into(),
         assumptions: vec!["n is always the true number of signed messages (its documented meaning)".into()],
